@@ -525,6 +525,30 @@ fn begin(c: &mut Ctx, id: u64) {
     if id == 0 { c.op("consts", "consts"); }
 }
 
+/// 2..4 (gap, range) pairs, every field <= 2^62-1, with `first + Σ(gap + 2 + range)` = a chosen power-of-two
+/// neighbourhood (2^62, 2^63, 2^64, 2^64 + largest, 2^65; ± 2) — spread over the fields in random order, half of the
+/// fields saturated, so that no single field tells the story
+fn wrap_ranges(rng: &mut Rng, largest: u64, first: u64) -> Vec<(u64, u64)> {
+    const M: u128 = (1 << 62) - 1;
+    let k = 2 + rng.below(3) as usize;
+    let n = 2 * k;
+    let base: u128 = *rng.pick(&[1u128 << 62, 1u128 << 63, 1u128 << 64, (1u128 << 64) + largest as u128, (1u128 << 64) + largest as u128 + 1, 1u128 << 65, (largest as u128) + 1]);
+    let target = (base + rng.below(5) as u128).saturating_sub(2);
+    let mut rest = target.saturating_sub(first as u128 + 2 * k as u128).min(M * n as u128);
+    let mut order: Vec<usize> = (0..n).collect();
+    for i in (1..n).rev() { order.swap(i, rng.below(i as u64 + 1) as usize); }
+    let mut fields = vec![0u64; n];
+    for (j, i) in order.iter().enumerate() {
+        let slots_after = (n - j - 1) as u128;
+        let lo = rest.saturating_sub(M * slots_after);
+        let hi = rest.min(M);
+        let v = if j + 1 == n { rest.min(M) } else if rng.chance(1, 2) { hi } else { lo + (rng.varint62() as u128) % (hi - lo + 1) };
+        fields[*i] = v as u64;
+        rest -= v;
+    }
+    (0..k).map(|i| (fields[2 * i], fields[2 * i + 1])).collect()
+}
+
 // ---- independent classification of an ACK frame (RFC 9000 §19.3.1) ----
 fn ack_negative(largest: u64, first: u64, ranges: &[(u64, u64)]) -> bool {
     let Some(mut smallest) = largest.checked_sub(first) else { return true };
@@ -554,7 +578,7 @@ fn run_ack(o: &Opts) {
         let nfr = 1 + rng.below(3);
         for _ in 0..nfr {
             if c.dead { break; }
-            let (largest, first, ranges, class): (u64, u64, Vec<(u64, u64)>, &str) = match rng.below(12) {
+            let (largest, first, ranges, class): (u64, u64, Vec<(u64, u64)>, &str) = match rng.below(16) {
                 0..=2 if next > 0 => {
                     // benign: runs below `next`
                     let largest = next - 1 - rng.below(next.min(4));
@@ -576,6 +600,13 @@ fn run_ack(o: &Opts) {
                 6 => { let l = boundary(&mut rng, next).max(next); (l, l, vec![], "unsent-all") }
                 7 => { let l = boundary(&mut rng, next).max(next); (l, rng.below(3).min(l), vec![], "unsent") }
                 8 => { let l = boundary(&mut rng, next); let f = boundary(&mut rng, l); (l, f, vec![], "boundary") }
+                9..=12 => {
+                    // multi-field boundary combinations: 2..4 additional ranges whose fields TOGETHER (with first_range and
+                    // the 2 per range) reach 2^62, 2^63, 2^64, 2^64 + largest, 2^65 (± 2), every single field a valid varint
+                    let l = if rng.chance(1, 2) { boundary(&mut rng, next) } else { rng.below(next + 3) }.min((1 << 62) - 1);
+                    let f = match rng.below(4) { 0 => 0, 1 => rng.below(l + 1), 2 => l, _ => boundary(&mut rng, l).min((1 << 62) - 1) };
+                    (l, f, wrap_ranges(&mut rng, l, f), "multi-field-sum")
+                }
                 _ => {
                     let l = boundary(&mut rng, next); let f = boundary(&mut rng, l);
                     let rs = (0..rng.below(4)).map(|_| (boundary(&mut rng, 2), boundary(&mut rng, 2))).collect();
@@ -587,9 +618,11 @@ fn run_ack(o: &Opts) {
             let negative = ack_negative(largest, first, &ranges);
             let unsent = largest >= next;
             let situation = if negative { "negative" } else if unsent { "unsent" } else { "accepted" };
+            let gen_class = class;
             let class = format!("ack:{}", if negative { "negative" } else if unsent { if first > 1 << 20 { "unsent-huge-range" } else { "unsent" } } else { class });
             if c.struck(&class) { c.sink.branch(&format!("skipped-after-3-strikes:{}", class)); continue; }
             c.sink.branch(&class);
+            if gen_class == "multi-field-sum" { c.sink.branch("ackgen:multi-field-sum(2..4 ranges summing to 2^62/2^63/2^64/2^64+largest/2^65 +-2)"); }
             let op = format!("ack {} {} {} {}", largest, rng.below(1000), first, pairs(&ranges));
             let obs = c.op(&op, &class);
             // RFC monitors (from the generator's own classification)
@@ -613,7 +646,7 @@ fn run_ack(o: &Opts) {
     c.pool.kill();
     sink.note("worker_restarts", serde_json::json!(restarts));
     sink.note("dispatcher_ack_arms_as_copied_by_the_harness", serde_json::json!(format!("{}/3", dispatcher_arms_as_copied())));
-    sink.finish(&o.stats, "C04a: 0..60 packets sent (sent journal + qcongestion), a few packets received, then 1..3 ACK frames: benign runs / everything, first_range > largest, gap underflow, largest >= next pn (with first_range = largest or small), all fields from the boundary set {0,1,63,64,2^14+-1,2^30+-1,2^31,2^62-2,2^62-1,state+-1} + uniform 62-bit; real dispatcher order replayed in a worker process with RLIMIT_AS and a 10 s wall (8 s CPU) cap per operation; non-trivial = an ACK accepted; distinct by transcript hash");
+    sink.finish(&o.stats, "C04a: 0..60 packets sent (sent journal + qcongestion), a few packets received, then 1..3 ACK frames: benign runs / everything, first_range > largest, gap underflow, largest >= next pn (with first_range = largest or small), all fields from the boundary set {0,1,63,64,2^14+-1,2^30+-1,2^31,2^62-2,2^62-1,state+-1} + uniform 62-bit, and (1/4 of the frames) 2..4 additional ranges whose gap/range fields TOGETHER with first_range sum to 2^62, 2^63, 2^64, 2^64+largest, 2^65 or largest+1 (+-2), each field a valid varint; real dispatcher order replayed in a worker process with RLIMIT_AS and a 10 s wall (8 s CPU) cap per operation; non-trivial = an ACK accepted; distinct by transcript hash");
 }
 
 fn run_pn(o: &Opts) {
@@ -667,7 +700,7 @@ fn run_cid(o: &Opts) {
             for _ in 0..(1 + rng.below(2)) {
                 if c.dead { break; }
                 let seq = match rng.below(14) { 0 => next, 1 => next + 1, 2 => next + limit, 3 => next + 4095, 4 => next + 4096, 5 => next + 4097, 6 => next + 4098, 7 => 1 << 25, 8 => next + rng.below(limit + 2), 9 => next + 2 + rng.below(4000), _ => boundary(&mut rng, next) }.min((1 << 62) - 1);
-                let rpt = match rng.below(7) { 0 => 0, 1 => seq, 2 => seq.saturating_sub(1), 3 => seq.saturating_sub(limit), 4 => seq.saturating_sub(limit + 1), 5 => seq.saturating_sub(limit.saturating_sub(1)), _ => rng.below(seq + 1) };
+                let rpt = match rng.below(10) { 0 => 0, 1 => seq, 2 => seq.saturating_sub(1), 3 => seq.saturating_sub(limit), 4 => seq.saturating_sub(limit + 1), 5 => seq.saturating_sub(limit.saturating_sub(1)), 6 => next.min(seq), 7 => next.saturating_sub(1).min(seq), 8 => (max_rpt + 1).min(seq), _ => rng.below(seq + 1) };
                 let far = seq.saturating_sub(next);
                 // active ids after the frame, if it were processed: received or this one, not below the retire-prior-to mark
                 let mark = max_rpt.max(rpt);
@@ -726,7 +759,7 @@ fn run_cid(o: &Opts) {
     let restarts = c.pool.restarts;
     c.pool.kill();
     sink.note("worker_restarts", serde_json::json!(restarts));
-    sink.finish(&o.stats, "C04c: (a) ArcRemoteCids with limit 2..8, 0..limit-1 ids delivered in order, then 1..2 NEW_CONNECTION_ID frames with seq in {next, next+1, next+limit, next+4095..next+4098, next+2..next+4001, 2^25, boundary set, uniform 62-bit} and retire_prior_to in {0, seq, seq-1, seq-limit+1, seq-limit, seq-limit-1, random} (classified by the number of active ids they would leave, not by seq - retire_prior_to); (b) ArcLocalCids: set_limit(n) for n in {0,1,2,3,8,63,64,65,2^14,2^18,2^30,2^62-1}, then 1..3 RETIRE_CONNECTION_ID for issued / unissued / boundary numbers; worker process with RLIMIT_AS and a 10 s cap; non-trivial = an id accepted / ids issued; distinct by transcript hash");
+    sink.finish(&o.stats, "C04c: (a) ArcRemoteCids with limit 2..8, 0..limit-1 ids delivered in order, then 1..2 NEW_CONNECTION_ID frames with seq in {next, next+1, next+limit, next+4095..next+4098, next+2..next+4001, 2^25, boundary set, uniform 62-bit} and retire_prior_to in {0, seq, seq-1, seq-limit+1, seq-limit, seq-limit-1, next, next-1, largest retire_prior_to so far + 1, random} (classified by the number of active ids they would leave, not by seq - retire_prior_to); (b) ArcLocalCids: set_limit(n) for n in {0,1,2,3,8,63,64,65,2^14,2^18,2^30,2^62-1}, then 1..3 RETIRE_CONNECTION_ID for issued / unissued / boundary numbers; worker process with RLIMIT_AS and a 10 s cap; non-trivial = an id accepted / ids issued; distinct by transcript hash");
 }
 
 pub const RUNS: &[(&str, fn(&Opts))] = &[("C04a", run_ack), ("C04p", run_pn), ("C04c", run_cid), ("C04w", worker)];
